@@ -76,10 +76,13 @@ def units(tier):
     return us
 
 
+_BUDGET = [3]      # CPU seconds per execution; the size axis raises it for its long inputs
+
+
 def real_parse(d, data, kw):
     s = io.BytesIO(data)
     try:
-        with watchdog(3):
+        with watchdog(_BUDGET[0]):
             v = d.parse_stream(s, **kw)
         return ("ok", T.norm(v), s.tell())
     except Hang:
@@ -104,7 +107,7 @@ def ref_parse(t, data, kw):
 
 def real_build(d, v, kw):
     try:
-        with watchdog(3):
+        with watchdog(_BUDGET[0]):
             return ("ok", d.build(v, **kw))
     except Hang:
         return ("hang",)
@@ -130,7 +133,7 @@ def cmp_parse(t, d, data, kw, tsig):
     b = real_parse(d, data, kw)
     case = {"term": t, "op": "parse", "data": data, "kw": kw}
     if b[0] == "hang":
-        return a, [{"sig": "C03/parse-hang/" + tsig, "case": case, "detail": "%s.parse(%s) did not terminate; reference: %r" % (T.show(t), data.hex(), a[:2])}]
+        return a, [{"sig": "C03/parse-hang/" + tsig, "case": case, "detail": "%s.parse(%s) did not terminate; reference: %s" % (T.show(t), shex(data), srepr(a[:2]))}]
     if a[0] == "ok" and b[0] == "ok":
         if not T.eqv(a[1], b[1]):
             return a, [{"sig": "C03/parse-value-differs/" + tsig, "case": case,
@@ -551,6 +554,7 @@ def scale_cases(n):
 
 def run_scale(sizes, r):
     """the size axis (mc/scale.py): every wire format whose amount of data is a parameter, at each size of the alphabet"""
+    _BUDGET[0] = 60
     for n in sizes:
         for t, v in scale_cases(n):
             d = T.mk(t)
@@ -569,6 +573,7 @@ def run_scale(sizes, r):
                     for x in vs:
                         x["case"] = {"scale": [T.show(t)[:60], n], "op": "parse", "len": len(data)}
                         r.violation(x["sig"], x["case"], x["detail"][:500])
+    _BUDGET[0] = 3
     r.sample({"scale_sizes": sizes, "formats": 26})
 
 
